@@ -157,6 +157,62 @@ Theorem T11_7_restore_pick : forall origs news nd c,
 Proof. exact restore_pick_sound. Qed.
 Print Assumptions T11_7_restore_pick.
 
+(* ---- T11.13 / R11.14: the spelling written after the b/r/f prefix adjustment (repair c664901) ---- *)
+(* a node is overwritten only if its own spelling is a literal of its value, and only with a spelling that
+   ast.literal_eval evaluates to the node's value (type included: other types are other interned values) *)
+Theorem T11_13_restore_write_sound : forall origs news adj nd w,
+  restore_write_node origs news adj nd = Some w ->
+  n_lit (wn nd) = true /\
+  exists c, restore_node (map wo origs) (map wn news) (wn nd) = Some c /\
+            written origs adj nd c = Some (w, Some (n_val (wn nd))).
+Proof. exact restore_write_node_sound. Qed.
+Print Assumptions T11_13_restore_write_sound.
+
+(* where that spelling and its verdict come from: the most common original spelling itself when the prefix
+   letters agree, otherwise CPython's verdict about prefix + stripped original spelling *)
+Theorem T11_13_written_spec : forall origs adj nd c w d,
+  written origs adj nd c = Some (w, d) ->
+  (w = most_common c /\
+   exists o, In o origs /\ o_text (wo o) = w /\ o_val (wo o) = n_val (wn nd) /\ o_lit (wo o) = true /\
+             o_eval o = d /\ mods_of (n_pre nd) = mods_of (o_pre o))
+  \/ (exists p, In (most_common c, p, w, d) adj /\ leqb p (prefix_of (mods_of (n_pre nd))) = true).
+Proof. exact written_spec. Qed.
+Print Assumptions T11_13_written_spec.
+
+Theorem T11_13_restore_write_whole : forall a origs news adj i w,
+  nth_error (restore_write a origs news adj) i = Some (Some w) ->
+  exists nd, nth_error news i = Some nd /\ restore_write_node origs news adj nd = Some w.
+Proof. exact restore_write_sound. Qed.
+Print Assumptions T11_13_restore_write_whole.
+
+(* hence, for any evaluation of spellings the verdicts are computed from, the written spelling evaluates to
+   what the overwritten spelling evaluates to -- prefix change or not *)
+Theorem T11_13_restore_write_same_value : forall (den : nat -> option nat) origs news adj nd w,
+  (forall o, In o origs -> o_eval o = Some (n_val (wn nd)) -> den (o_text (wo o)) = Some (n_val (wn nd))) ->
+  (forall t p w', In (t, p, w', Some (n_val (wn nd))) adj -> den w' = Some (n_val (wn nd))) ->
+  (n_lit (wn nd) = true -> den (n_text (wn nd)) = Some (n_val (wn nd))) ->
+  restore_write_node origs news adj nd = Some w ->
+  den w = den (n_text (wn nd)).
+Proof. exact restore_write_same_value. Qed.
+Print Assumptions T11_13_restore_write_same_value.
+
+(* pinned: the step as it was before the repair writes a spelling of another value (r'\n' pasted as '\n') *)
+Theorem R11_14_old_restore_write_refuted : exists origs news adj nd w v,
+  restore_write_node_unchecked origs news adj nd = Some (w, Some v) /\ v <> n_val (wn nd) /\
+  restore_write_node origs news adj nd = None.
+Proof. exact old_restore_write_refuted. Qed.
+Print Assumptions R11_14_old_restore_write_refuted.
+
+(* spellings 1 = r"a" (twice) and 2 = 'a' in the original; the new source has 3 = 'a'-in-another-quoting (no
+   prefix letters) and 1 again: the most common spelling r"a" is pasted without its r (spelling 4), which the
+   table says evaluates to the node's value 7; the node spelled 1 is left alone *)
+Example restore_write_example :
+  restore_write false
+    [mkWO (mkO 7 1 true) [114%N] (Some 7); mkWO (mkO 7 1 true) [114%N] (Some 7); mkWO (mkO 7 2 true) [] (Some 7)]
+    [mkWN (mkN 7 3 true) []; mkWN (mkN 7 1 true) [114%N]] [(1, [], 4, Some 7); (1, [114%N], 1, Some 7)]
+  = [Some 4; None].
+Proof. reflexivity. Qed.
+
 (* ---- T11.11 / R11.12: the f-string restoration step (_substitute_original_fstrings) ----------- *)
 Theorem T11_11_frestore_sound : forall origs nd r,
   frestore_node origs nd = Some r ->
